@@ -315,13 +315,6 @@ def check(pid, tier):
         os.makedirs(os.path.join(HOME, "evidence"), exist_ok=True)
         with open(os.path.join(HOME, "evidence", pid + ".json"), "w") as f:
             json.dump(ev, f, indent=1, default=str)
-    try:
-        for d in os.listdir(WORK):
-            dp = os.path.join(WORK, d)
-            if os.path.isdir(dp) and not os.listdir(dp):
-                os.rmdir(dp)
-    except OSError:
-        pass
     for ln in lines:
         print(ln)
     print("%s tier=%s seed=%d evaluations=%d distinct=%d known=%d new=%d wall=%.1fs" % (
